@@ -43,7 +43,7 @@ import os
 import random
 import time
 
-PROPERTIES = ['C01', 'C02', 'C04', 'C05', 'C15']
+PROPERTIES = ['C01', 'C02', 'C04', 'C05', 'C15', 'C14']
 PROPERTY = 'C01'
 
 N_QUICK = 2500
@@ -81,8 +81,8 @@ CLAUSES = [
 # which property each clause restates (the checker reports a failing clause only under the properties listed for it)
 CLAUSE_PROPERTIES = {
     'cash-ledger': ['C01'], 'transfer-zero-sum': ['C01'], 'history-events-rounded-once': ['C01'],
-    'account-totals-are-sums': ['C01', 'C02'], 'queries-change-nothing': ['C01', 'C02'],
-    'holdings-are-net-fills': ['C02'], 'valued-at-latest-price': ['C02'],
+    'account-totals-are-sums': ['C01', 'C02', 'C14'], 'queries-change-nothing': ['C01', 'C02'],
+    'holdings-are-net-fills': ['C02'], 'valued-at-latest-price': ['C02', 'C14'],
     'pending-until-first-open-update': ['C04'], 'filled-once-in-full': ['C04'], 'sells-before-buys-then-submission-order': ['C04'],
     'fill-on-own-portfolio': ['C04', 'C01'],
     'fill-price-ask-buy-bid-sell-at-update-time': ['C05'], 'fill-stamped-update-time': ['C05'],
